@@ -26,6 +26,20 @@ THEOREMS = [
     'IblVerif.C05.adc_shift_lt_one',
     'IblVerif.C05.adc_tables_valid',
     'IblVerif.C05.adc_same_slot_same_shift',
+    # growth round
+    'IblVerif.C05.pad_strip_identity',
+    'IblVerif.C05.pad_rows_index_map',
+    'IblVerif.C05.pad_guard_needed',
+    'IblVerif.C05.taper_range',
+    'IblVerif.C05.kfilt_pad_taper_strip_identity',
+    'IblVerif.C05.agc_gain_positive',
+    'IblVerif.C05.agc_dead_iff_zero_row',
+    'IblVerif.C05.agc_epsilon_rule',
+    'IblVerif.C05.agc_window',
+    'IblVerif.C05.sosfiltfilt_removes_constants',
+    'IblVerif.C05.kfilt_sos_kills_common_mode',
+    'IblVerif.C05.kfilt_stage_order',
+    'IblVerif.C05.destripe_stage_order',
 ]
 RULE = ('three layers. (1) exact: the ADC delay table of every probe generation (384 channels, k/n_cycles and ADC index), np.unique, the agc window '
         'length for lagc 0..40 and random lagc <= 5000, the defaults of _get_destripe_parameters for boundary sampling rates (2999/3000/3001 …). '
@@ -38,7 +52,13 @@ RULE = ('three layers. (1) exact: the ADC delay table of every probe generation 
         '(3) the property stated directly on the real code (oracles, independent of the model): zero median/mean per group, groups = per group for car/kfilt/fk, '
         'agc product, exclusion of label-3 channels, >= 40 dB attenuation of ADC-skewed band-limited stripes (burst and stationary, 1-15 sinusoids, AP 0.4-12 kHz and '
         'LFP 5-250 Hz, NP1 / NP2x1 / NP2x4 / NPultra, k-filter and median, with outside / dead channels) and >= 90 % retention of spikes on 1 or 3 neighbouring channels '
-        '(every depth in the thorough tier, probe ends over-sampled, alone and on a noise+stripe background). About half of the twin cases and 40 (300) generated ones are run as call sequences on the same argument objects: f, f, other library calls (agc / kfilt / fk / car / interpolate / destripe / destripe_lfp / fshift on their own arrays), f, then fshift on the same array; every result must be the one of the original values and the last one is what the model is compared with. A case is distinct by its full input; non-trivial when it has >= 2 channels.')
+        '(every depth in the thorough tier, probe ends over-sampled, alone and on a noise+stripe background). About half of the twin cases and 40 (300) generated ones are run as call sequences on the same argument objects: f, f, other library calls (agc / kfilt / fk / car / interpolate / destripe / destripe_lfp / fshift on their own arrays), f, then fshift on the same array; every result must be the one of the original values and the last one is what the model is compared with. A case is distinct by its full input; non-trivial when it has >= 2 channels. '
+        '(4) growth round — intermediate values of the modelled mechanisms observed where the code hands them to numpy / scipy (a recording wrapper around the dependency, nothing in /repo is touched): '
+        'the window length agc passes to np.hanning for dyadic wl / si (all half-way cases of the rounding exact) and decimal pairs incl. the defaults; the rows kfilt / fk pass to their filter for '
+        'nx 1..13 x ntr_pad in {0, 1, 2, nx-1, nx} (row index map exact) and, for kfilt with the filter replaced by the identity, the rows it returns (un-padding); the taper values for ntr_tap None / <= / > ntr_pad (1e-12); '
+        'the modelled scipy sosfiltfilt vs the real one for Butterworth orders 1-4 at lengths edge-1, edge, edge+1, edge+2, longer (noise, constant, random walk, impulse at the end; ValueError branch), the exact hypotheses '
+        'b.sum() == 0, a.sum() != 0, a0 == 1 of every high-pass section; kfilt with the spatial filter modelled (sections as data) vs the real kfilt; agc on rows at the boundary of dead (one non-zero sample first / last / anywhere, '
+        'all-zero rows, windows longer than the row, one-sample rows).')
 ASSUMPTIONS = [
     'padding arguments with ntr_pad > number of channels are outside the model (NumPy returns another shape there); never generated',
     'with channel groups kfilt filters every group with ntr_pad=0, ntr_tap=None (what the code does); the property names filter, gain-control and operator settings only, '
@@ -60,24 +80,48 @@ ASSUMPTIONS = [
     'channel groups / fshift (the unchanged code truncates: known findings int-dtype-agc, int-dtype-groups; fshift is C07), read-only data for the in-place class; '
     'unsupported by the API and never generated: labels or header entries as Python lists, vbounds as ndarray',
     'agc with epsilon > 0 (theorem hypothesis; the default is 1e-8); outside-brain oracle uses labels 0/3 only (bad channels next to outside ones use them as interpolation donors: C15)',
+    'growth round: the agc window is compared exactly for dyadic wl / si (float quotient = rational quotient) and for decimal pairs whose quotient is not within 1e-6 of a half-way point '
+    '(there the float path of the code and the rational reading of the model may legitimately round differently); the wrappers around np.hanning / scipy.signal.sosfiltfilt / np.fft.fft2 only '
+    'record and delegate (identity filter for the un-padding observation) — when a wrapper is not reached (the code uses another entry point of the dependency) there is no observation and no demand '
+    '(tag info:spy-not-reached-*); gain > 0 on live rows and dead = zero rows are compared between model and code as values of the returned gain, not demanded beyond data x gain = input',
+    'translator tie: `ntr_pad = int(ntr_pad)` is read as the identity on integers, and in the stage items ntr_pad / ntr_tap denote the values after the two normalisation statements '
+    '(which are tied separately); tests that are not integer comparisons (`x is None`, `not lagc`, `gpu`) are fixed per item (all combinations that matter are items); float quotients are read as exact rationals',
 ]
 TRUSTED = [
-    'scipy.signal.sosfiltfilt is linear and acts column by column (axis=0) / row by row: it enters the model as a matrix measured on the identity each run',
-    'the spatial high-pass removes constants (KillsConst: zero DC gain incl. scipy\'s odd extension); measured each run (|L·1| <= 1e-9)',
+    'scipy.signal.sosfiltfilt is linear and acts column by column (axis=0) / row by row: in the twin of car / kfilt / destripe it enters as a matrix measured on the identity each run; since the growth round its algorithm '
+    '(scipy 1.18: odd extension, sosfilt_zi, forward / backward direct-form-II-transposed pass, un-padding, edge = 3 ntaps) is ALSO modelled from the installed source (Model/DestripeSos.lean) and compared with the real one each run',
+    'the spatial high-pass removes constants (KillsConst): no longer an assumed law of the filter — proved for the modelled sosfiltfilt (sosfiltfilt_removes_constants) from the hypotheses "one section has b.sum() = 0, none has a.sum() = 0", '
+    'which are asserted EXACTLY on the sections scipy.signal.butter returns for every high-pass design used (sos-hypotheses); still measured each run on the real filter as well (|L·1| <= 1e-9). The Butterworth design itself (butter) stays a trusted external',
+    'the translator harness/pyfn2lean.py (its output lean/IblVerif/Generated/SrcC05.lean is plain Lean that can be read next to voltage.py), its reading of float quotients as exact rationals and its dropping of statements outside the integer skeleton',
     'fourier.convolve = textbook convolution (C18) and fourier.fshift = circular band-limited delay (C07); their time-domain forms in the model are compared with the real functions each run',
     'interpolate_bad_channels is a fixed linear map per label vector (C15), measured on the identity',
     'np.median = middle of the sorted vector / mean of the two middle values; np.unique = sorted distinct values',
     'aligned_common_mode is about periodic band-limited waveforms (harmonics strictly below Nyquist of the window) and assumes the temporal filter maps delayed samplings to delayed samplings (true for an LTI filter away from the window edges); the finite-window / edge effects are covered only by the stripe oracle',
 ]
-LEVEL_TEXT = ('Lean 4 theorems over ℝ for the definitions the Float driver executes: zero median / zero mean per channel group at every sample; grouped filtering = per-group filtering '
+LEVEL_TEXT = ('[growth round + translator tie, see the end] Lean 4 theorems over ℝ for the definitions the Float driver executes: zero median / zero mean per channel group at every sample; grouped filtering = per-group filtering '
               'with the same settings record (generic, + car / kfilt / fk instances, error propagation); agc data x gain = input at every sample (dead rows are zero rows); '
               'label-3 rows are neither inputs nor outputs of the spatial stage; a common mode is removed exactly by median / mean referencing and by the k-filter; '
               'ADC delays are proper fractions, equal within a sampling slot; the kernel of fshift(+sample_shift) turns a band-limited periodic waveform sampled sample_shift late into the waveform sampled on time (sign of the delay), hence destripe removes an ADC-skewed common disturbance exactly over ℝ. The model is tied to the code by a Float twin (1e-9) on car/agc/kfilt/fk/fshift/destripe/destripe_lfp. '
+              'Growth round (all inputs, no enumeration): the mirrored padding of kfilt / fk as Python list operations — length, row index map, un-padding returns exactly the original rows for every ntr_pad <= nc, '
+              'the guard `if ntr_pad > 0` is needed; taper in [0, 1] and = 1 on rows ntr_tap..nxp-ntr_tap, so padding + taper + un-padding leave the recorded channels untouched (identity filter, ntr_tap <= ntr_pad); '
+              'agc gain > 0 at every sample of every row that is not identically zero, dead rows = zero rows (gain 0, data unchanged), gain >= epsilon x mean envelope, window odd and within [lagc, lagc+2]; '
+              'scipy\'s sosfiltfilt as modelled (odd extension, sosfilt_zi, both passes) maps constants to 0 when one section has zero DC gain — hence the k-filter removes a common mode with NO assumed law about the filter; '
+              'the functional models carry the stage lists (kfilt_stage_order, destripe_stage_order). '
+              'Translator tie (Tie/C05.lean, re-proved against the source text on every run, for all arguments): agc ns_win for every rational wl / si = agcWinQ (and = agcWin lagc for kfilt\'s call); kfilt / fk nxp and the ntr_tap default; '
+              'kfilt / fk without collection as the sequence copy | agc(si) -> taper [0, ntr_tap] over nxp rows iff ntr_tap > 0 -> filter (axis 0 / f-k multiplication); destripe as temporal filter -> fshift(+sample_shift, axis 1) iff a probe version is given '
+              '-> interpolation + spatial stage on the inside rows (labels) | spatial stage on the whole array (no labels). '
               'PARTIAL: the magnitudes (>= 40 dB attenuation, >= 90 % spike retention) are only measured by the calibrated oracle on the real code.')
 LEVEL_NOTE = ('partial: >= 40 dB and >= 90 % are numeric (oracle on the real code, calibration written to the evidence every run), the exact removal theorem is for periodic band-limited waveforms (finite-window edge effects and the transients of the temporal filter are numeric only). '
-              'trusted: Lean kernel + Mathlib, the Python harness, scipy sosfiltfilt linear with zero DC gain (measured), fourier.convolve / fshift = their textbook forms (compared numerically)')
+              'still only numeric / compared, not proved: the f-k multiplication of fk without collection (a measured table in the twin), the temporal filter and interpolate_bad_channels (measured matrices), '
+              'np.median / np.unique semantics, the float rounding of every real-number theorem (1e-9 twin), the mirrored-padding SLICES of the source text (outside the translator\'s subset: tied by the exact row observation each run, not by the translator), '
+              'the per-collection recursion\'s forwarded keyword arguments (for-loop over np.unique is outside the translator\'s subset: proved about the model, compared by twin + groups oracle). '
+              'trusted: Lean kernel + Mathlib, the Python harness and its recording wrappers, the translator (pyfn2lean), scipy.signal.butter (sections checked for b.sum() == 0 exactly each run), scipy sosfiltfilt = its modelled algorithm (compared each run), '
+              'fourier.convolve / fshift = their textbook forms (compared numerically)')
 TECHNIQUE = ('Lean 4 + Mathlib proofs (sorting commutes with order-preserving maps, Finset sums, induction over the np.unique loop, roots-of-unity sums for the fractional-delay kernel) on a scalar-generic executable model; '
-             'Float twin correspondence with external filters supplied as measured matrices; calibrated numeric oracle for the dB / % magnitudes (partial)')
+             'Float twin correspondence with external filters supplied as measured matrices or (growth round) as the modelled sosfiltfilt with the sections as data; list lemmas (take / drop / reverse / append) for the mirrored padding; '
+             'direct-form-II-transposed fixed-point induction for the DC behaviour of the second-order sections; intermediate values observed exactly at the numpy / scipy boundary; '
+             'translator tie: integer / decision / event-order skeleton of agc, kfilt, fk, destripe regenerated from voltage.py on every run and proved equal to the hand model (unfold + simp / omega / ring_nf / decide); '
+             'calibrated numeric oracle for the dB / % magnitudes (partial)')
 
 TOL = 1e-9
 VERSIONS = [(1, 1), (2, 1), (2, 4), ('NPultra', 1)]
@@ -1370,9 +1414,280 @@ def _oracle_part(ctx):
     ctx._oracle_fails = fails
 
 
+
+# ---------------------------------------------------------------------------------------------
+# growth round: mechanisms inside kfilt / fk / agc observed at the boundary to their dependencies
+# ---------------------------------------------------------------------------------------------
+class _Spy:
+    """Replace attribute `name` of `obj` for the duration of a `with` block by a wrapper that records the positional / keyword arguments of
+    every call and then either delegates to the original or returns `returns(*args, **kw)`.  It observes what the code under test hands to
+    its DEPENDENCY (numpy / scipy), i.e. an intermediate value of the modelled mechanism; a spy that is never reached (the code was rewritten
+    to use another entry point of the dependency) yields no observation and is recorded as information only."""
+
+    def __init__(self, obj, name, returns=None):
+        self.obj, self.name, self.returns, self.calls = obj, name, returns, []
+
+    def __enter__(self):
+        self.orig = getattr(self.obj, self.name)
+
+        def wrapper(*a, **kw):
+            self.calls.append((tuple(np.array(v) if isinstance(v, np.ndarray) else v for v in a), dict(kw)))
+            return self.orig(*a, **kw) if self.returns is None else self.returns(*a, **kw)
+        setattr(self.obj, self.name, wrapper)
+        return self
+
+    def __exit__(self, *exc):
+        setattr(self.obj, self.name, self.orig)
+        return False
+
+
+def _sos_tok(sos):
+    """second-order sections of scipy (rows b0 b1 b2 1 a1 a2) -> 5 numbers per section"""
+    sos = np.asarray(sos, float)
+    return _bits(sos[:, [0, 1, 2, 4, 5]])
+
+
+def observe_agc_window(wl, si, x=None):
+    """ns_win of the real agc: the argument it hands to np.hanning (None when the spy is not reached)"""
+    from ibldsp import voltage
+    x = np.ones((1, 3)) if x is None else x
+    with _Spy(np, 'hanning') as sp:
+        voltage.agc(x.copy(), wl=wl, si=si)
+    return int(sp.calls[0][0][0]) if sp.calls else None
+
+
+def observe_padding(fn, nx, pad, tap, ns=4, kind='index'):
+    """what the real kfilt / fk hand to their filter (scipy.signal.sosfiltfilt resp. np.fft.fft2) and, for kfilt with the filter replaced by the
+    identity, what they return: kind 'index' feeds rows c+1 (exact row bookkeeping), kind 'taper' feeds ones.  -> (filter input, result) or None"""
+    import scipy.signal
+    from ibldsp import voltage
+    x = (np.tile(np.arange(1, nx + 1, dtype=float)[:, None], (1, ns)) if kind == 'index' else np.ones((nx, ns)))
+    if fn == 'kfilt':
+        def ident(sos, xx, axis=-1, **kw):
+            return np.array(xx)
+        with _Spy(scipy.signal, 'sosfiltfilt', returns=ident) as sp:
+            y = voltage.kfilt(x.copy(), ntr_pad=pad, ntr_tap=tap, lagc=None)
+        if not sp.calls:
+            return None
+        a, kw = sp.calls[0]
+        axis = kw.get('axis', a[2] if len(a) > 2 else -1)
+        return np.moveaxis(np.asarray(a[1], float), axis, 0), np.asarray(y, float)
+    with _Spy(np.fft, 'fft2') as sp:
+        y = voltage.fk(x.copy(), si=1.0, dx=1.0, vbounds=[0.1, 1.0], ntr_pad=pad, ntr_tap=tap, lagc=None)
+    if not sp.calls:
+        return None
+    return np.asarray(sp.calls[0][0][0], float), None
+
+
+def _growth_part(ctx):
+    import scipy.signal
+    from fractions import Fraction
+    from ibldsp import voltage
+    rng = ctx.rng
+    lines, checks = [], []
+
+    def add(line, fn):
+        lines.append(line)
+        checks.append(fn)
+
+    # ---- (a) agc window length for rational wl / si, read off the real agc's call of np.hanning -------------------------------
+    pairs = [(0.5, 0.002), (300.0, 1.0), (3000.0, 1.0), (0.01, 0.002), (1.0, 1.0), (2.0, 1.0), (3.0, 1.0), (5.0, 2.0), (7.0, 2.0), (1.0, 4.0), (0.25, 1.0)]
+    for _ in range(ctx.n(40, 300)):
+        si = float(rng.choice([1.0, 1.0, 2.0, 0.5, 0.25, 4.0, 0.125]))
+        wl = float(rng.integers(1, 1200)) / float(rng.choice([1, 1, 2, 4, 8]))        # dyadic: wl / si / 2 is exact in floating point, half-way cases included
+        pairs.append((wl, si))
+    for _ in range(ctx.n(10, 60)):
+        pairs.append((float(np.round(rng.uniform(0.001, 2.0), 3)), float(rng.choice([0.002, 1 / 30000, 0.0004, 0.001]))))
+    for wl, si in pairs:
+        fw, fs_ = Fraction(repr(wl)), Fraction(repr(si))
+        q = wl / si / 2
+        exact = (fw / fs_ / 2)
+        dyadic = (fw.denominator & (fw.denominator - 1)) == 0 and (fs_.denominator & (fs_.denominator - 1)) == 0
+        if not dyadic and (abs(float(exact) - q) > 1e-9 * abs(q) or abs((float(exact) % 1) - 0.5) < 1e-6):
+            continue                    # a non-dyadic quotient within rounding of a half-way point: the float path is not the rational one
+        got = observe_agc_window(wl, si)
+        desc = {'op': 'agc window length', 'wl': wl, 'si': si}
+        if got is None:
+            ctx.case(desc, nontrivial=False, tags=('info:spy-not-reached-np.hanning',))
+            continue
+        half = (exact % 1) == Fraction(1, 2)
+        add(f'agcwinq {fw.numerator} {fw.denominator} {fs_.numerator} {fs_.denominator}',
+            lambda ans, got=got, desc=desc, half=half, dyadic=dyadic: ctx.compare(
+                'agc-window', desc, f'ok {got}', ans, tags=('agc-window', 'half-way' if half else 'not-half-way', 'dyadic' if dyadic else 'decimal')))
+
+    # ---- (b) mirrored padding, taper, un-padding of kfilt / fk: exact row bookkeeping ----------------------------------------------------
+    combos = []
+    for nx in [1, 2, 3, 4, 5, 7, 8, 13]:
+        for pad in sorted({0, 1, 2, nx - 1, nx} & set(range(0, nx + 1))):
+            combos.append((nx, pad))
+    sel = [combos[i] for i in rng.permutation(len(combos))[:ctx.n(14, len(combos))]]
+    for nx, pad in sel:
+        for fn in ('kfilt', 'fk'):
+            obs = observe_padding(fn, nx, pad, 0, kind='index')
+            desc = {'op': 'padding rows', 'fn': fn, 'nx': nx, 'ntr_pad': pad}
+            if obs is None:
+                ctx.case(desc, nontrivial=False, tags=('info:spy-not-reached-filter-of-' + fn,))
+                continue
+            xin, y = obs
+            rows_in = [int(round(v)) - 1 for v in xin[:, 0]]
+            exact_in = bool(np.all(xin == np.round(xin)) and np.all(xin == xin[:, :1]))
+            impl = f"ok idx={_ints(rows_in)}" + ('' if exact_in else ' (not whole rows)')
+            if y is not None:
+                impl += f" strip={_ints([int(round(v)) - 1 for v in y[:, 0]])}" + ('' if y.shape[0] == nx and np.all(y == y[:, :1]) else ' (not whole rows)')
+
+            def chk(ans, impl=impl, desc=desc, has_y=y is not None, pad=pad, nx=nx, fn=fn):
+                parts = dict(p.split('=', 1) for p in ans.split()[1:])
+                model = f"ok idx={parts['idx']}" + (f" strip={parts['strip']}" if has_y else '')
+                ctx.compare('padding', desc, impl, model, nontrivial=nx > 1,
+                            tags=('padding', 'padding-' + fn, 'pad=0' if pad == 0 else 'pad=nx' if pad == nx else 'pad=nx-1' if pad == nx - 1 else 'pad-inner'))
+                if parts['idx'] != parts['map']:          # the Python-list form of the model and its index-map form must agree (theorem pad_rows_index_map)
+                    ctx.compare('padding', {**desc, 'what': 'list form vs index map of the model'}, parts['idx'], parts['map'], tags=('padding-model-forms',))
+            add(f'padidx {nx} {pad}', chk)
+    for _ in range(ctx.n(16, 120)):
+        nx = int(rng.integers(1, 14))
+        pad = int(rng.choice([0, 1, 2, nx // 2, max(nx - 1, 0), nx]))
+        pad = min(pad, nx)
+        nxp = nx + 2 * pad
+        tapv = [None, None, 1, 1, 2, pad, pad, pad + 1, max(nxp // 2, 1), nxp][int(rng.integers(0, 10))]
+        tap_eff = pad if tapv is None else int(tapv)
+        fn = str(rng.choice(['kfilt', 'fk']))
+        desc = {'op': 'taper', 'fn': fn, 'nx': nx, 'ntr_pad': pad, 'ntr_tap': tapv}
+        if tap_eff <= 0:
+            continue
+        obs = observe_padding(fn, nx, pad, tapv, kind='taper')
+        if obs is None:
+            ctx.case(desc, nontrivial=False, tags=('info:spy-not-reached-filter-of-' + fn,))
+            continue
+        xin, y = obs
+        ok_shape = xin.shape[0] == nxp and bool(np.all(xin == xin[:, :1]))
+
+        def chk(ans, xin=xin, y=y, desc=desc, ok_shape=ok_shape, nxp=nxp, pad=pad, nx=nx, tap_eff=tap_eff, fn=fn, tapv=tapv):
+            m = _unbits(ans[3:]) if ans.startswith('ok ') else None
+            good = ok_shape and m is not None and m.shape == (nxp,) and bool(np.max(np.abs(m - xin[:, 0])) <= 1e-12)
+            if good and y is not None:                          # identity filter: the result is the taper on the recorded channels
+                good = y.shape[0] == nx and bool(np.max(np.abs(y[:, 0] - m[pad:pad + nx])) <= 1e-12)
+                if tap_eff <= pad:                                # theorem kfilt_pad_taper_strip_identity: recorded channels untouched
+                    good = good and bool(np.all(y == 1.0))
+            ctx.compare('taper', desc, 'ok' if good else f'taper rows {np.round(xin[:, 0], 12).tolist()} result {None if y is None else np.round(y[:, 0], 12).tolist()}',
+                        'ok' if good else f'taper {None if m is None else np.round(m, 12).tolist()}',
+                        tags=('taper', 'taper-' + fn, 'tap=None' if tapv is None else 'tap<=pad' if tap_eff <= pad else 'tap>pad'))
+        add(f'taper {nxp} {tap_eff}', chk)
+
+    # ---- (c) the modelled scipy.signal.sosfiltfilt against the real one; hypotheses of sosfiltfilt_removes_constants -------------------
+    designs = [{'N': 3, 'Wn': 0.01, 'btype': 'highpass'}, {'N': 3, 'Wn': 0.1, 'btype': 'highpass'}] + [_rand_butter(rng) for _ in range(ctx.n(6, 30))]
+    for bk in designs:
+        sos = scipy.signal.butter(**bk, output='sos')
+        if bk['btype'] == 'highpass':
+            zero_dc = [bool(r[0] + r[1] + r[2] == 0) for r in sos]
+            regular = [bool(1 + r[4] + r[5] != 0) for r in sos]
+            a0 = [bool(r[3] == 1) for r in sos]
+            ctx.compare('sos-hypotheses', {'op': 'high-pass sections: b.sum() == 0 in every section, a.sum() != 0, a0 == 1', 'butter': bk},
+                        repr((all(zero_dc), all(regular), all(a0))), repr((True, True, True)), tags=('sos-hypotheses',))
+        edge = _padlen(bk)
+        for k in range(ctx.n(4, 10)):
+            n = [edge, edge + 1, edge + 2, edge + int(rng.integers(3, 30)), max(edge - 1, 1)][k % 5]
+            kindx = int(rng.integers(0, 4))
+            sc = float(10.0 ** rng.integers(-4, 4))
+            x = [rng.normal(size=n), np.full(n, rng.normal()), np.cumsum(rng.normal(size=n)), np.r_[np.zeros(n - 1), 1.0]][kindx] * sc
+            try:
+                y = scipy.signal.sosfiltfilt(sos, x)
+            except ValueError:
+                y = 'err ValueError'
+            desc = {'op': 'sosfiltfilt', 'butter': bk, 'n': n, 'x': x.tolist()}
+
+            def chk(ans, y=y, desc=desc, x=x, n=n, edge=edge, kindx=kindx, bk=bk):
+                medge = int(ans.split('edge=')[1].split()[0]) if 'edge=' in ans else -1
+                tags = ('sosfiltfilt', 'sos-' + bk['btype'], ['noise', 'constant', 'random-walk', 'impulse-at-end'][kindx],
+                        'n<=edge' if n <= edge else 'n=edge+1' if n == edge + 1 else 'n>edge')
+                if isinstance(y, str) or ans.startswith('err'):
+                    return ctx.compare('sosfiltfilt', desc, y if isinstance(y, str) else 'ok', ans.split(' edge=')[0] if ans.startswith('err') else 'ok', tags=tags + ('error-branch',))
+                m = _unbits(ans.split('y=')[1])
+                sc_ = max(float(np.max(np.abs(x))), 1e-300)
+                good = medge == edge and m.shape == y.shape and bool(np.max(np.abs(m - y)) <= TOL * sc_ * 10)
+                ctx.compare('sosfiltfilt', desc, 'ok' if good else f'edge={edge} {_summary(y)}', 'ok' if good else f'edge={medge} {_summary(m)}', tags=tags)
+            add(f'sosff {_sos_tok(sos)} {_bits(x)}', chk)
+
+    # ---- (d) kfilt with the spatial filter MODELLED (sections as data) against the real kfilt ------------------------------------------
+    for _ in range(ctx.n(24, 200)):
+        bk = _rand_butter(rng) if rng.random() < 0.5 else {'N': 3, 'Wn': 0.01, 'btype': 'highpass'}
+        sos = scipy.signal.butter(**bk, output='sos')
+        padlen = _padlen(bk)
+        ns = int(rng.integers(1, 5))
+        coll = None
+        if rng.random() < 0.3:
+            k = int(rng.integers(1, 3))
+            nc = (padlen + int(rng.integers(1, 4))) * k
+            coll = (np.arange(nc) % k) if rng.random() < 0.5 else (np.arange(nc) * k // nc)
+        else:
+            nc = int(rng.integers(max(2, padlen - 6), padlen + 8))
+        x, xtag = _gen_matrix(rng, nc, ns)
+        pad = min(int(rng.choice([0, 0, 1, 3, nc])), nc)
+        tap = rng.choice([None, 0, 1, pad])
+        tap = None if tap is None else int(tap)
+        lagc = rng.choice([None, 0, 3, 300])
+        lagc = None if lagc is None else int(lagc)
+        kw = dict(ntr_pad=pad, ntr_tap=tap, lagc=lagc, butter_kwargs=bk)
+        if coll is not None:
+            kw['collection'] = coll
+        try:
+            y = voltage.kfilt(x.copy(), **kw)
+        except ValueError:
+            y = 'err ValueError'
+        desc = {'op': 'kfilt', 'filter': 'modelled sosfiltfilt', 'nc': nc, 'ns': ns, 'ntr_pad': pad, 'ntr_tap': tap, 'lagc': lagc, 'butter_kwargs': bk,
+                'collection': None if coll is None else coll.tolist(), 'x': x.tolist()}
+        add(f"spatial {nc} {ns} kfiltsos {pad} {'N' if tap is None else tap} {'N' if lagc is None else lagc} {_coll_tok(coll)} {_sos_tok(sos)} {_bits(x)}",
+            lambda ans, y=y, desc=desc, x=x, nc=nc, ns=ns, t=(xtag, 'coll' if coll is not None else 'coll=None', 'lagc=' + ('off' if not lagc else 'on'),
+                                                              'pad>0' if pad else 'pad=0'):
+            _cmp_arrays(ctx, 'kfilt', desc, y, ans, (nc, ns), np.max(np.abs(x)) * 10, tags=('kfilt-modelled-filter',) + t))
+
+    # ---- (e) agc at the boundary of "dead": rows that are zero except one sample (first / last / middle), all-zero rows, windows longer than the
+    #          row, one-sample rows; the gain must be positive on every live row (theorem agc_gain_positive) in the model AND in the code --------
+    for _ in range(ctx.n(30, 250)):
+        nc, ns = int(rng.integers(1, 5)), int(rng.choice([1, 2, 3, 5, 8, 17, 30]))
+        lagc = int(rng.choice([1, 2, 3, 5, 2 * ns, 2 * ns + 1, 300]))
+        x = np.zeros((nc, ns))
+        kinds = []
+        for c in range(nc):
+            k = int(rng.integers(0, 5))
+            kinds.append(k)
+            if k == 1:
+                x[c, 0] = rng.normal()
+            elif k == 2:
+                x[c, -1] = rng.normal()
+            elif k == 3:
+                x[c, int(rng.integers(0, ns))] = rng.normal()
+            elif k == 4:
+                x[c] = rng.normal(size=ns)
+        x = x * float(10.0 ** rng.integers(-6, 4))
+        d, g = voltage.agc(x.copy(), wl=lagc, si=1.0)
+        d, g = np.asarray(d, float), np.asarray(g, float)
+        live = np.any(x != 0, axis=1)
+        impl = f"ok gain-positive-on-live-rows={bool(np.all(g[live] > 0))} dead={_ints((np.sum(g, axis=1) == 0).astype(int))} zero-rows={_ints((~live).astype(int))}"
+        desc = {'op': 'agc', 'class': 'rows at the boundary of dead', 'nc': nc, 'ns': ns, 'lagc': lagc, 'epsilon': 1e-8, 'x': x.tolist()}
+
+        def chk(ans, d=d, g=g, x=x, nc=nc, ns=ns, live=live, impl=impl, desc=desc, lagc=lagc):
+            parts = dict(p.split('=', 1) for p in ans.split()[1:])
+            md, mg = _unbits(parts['data'], (nc, ns)), _unbits(parts['gain'], (nc, ns))
+            mdead = [int(v) for v in parts['dead'].split(',')]
+            model = f"ok gain-positive-on-live-rows={bool(np.all(mg[live] > 0))} dead={_ints(mdead)} zero-rows={_ints((~live).astype(int))}"
+            sc = max(float(np.max(np.abs(x))), 1e-300)
+            okg = _close(g, mg, sc)
+            okp = bool(np.max(np.abs(md * mg - x)) <= TOL * sc) and bool(np.max(np.abs(d * g - x)) <= TOL * sc)
+            if not (okg and okp):
+                impl, model = impl + f' gain {_summary(g)}', model + f' gain {_summary(mg)} product-ok={okp}'
+            ctx.compare('agc', desc, impl, model, nontrivial=True,
+                        tags=('agc', 'agc-dead-boundary', 'window>=2ns' if lagc >= 2 * ns else 'window<2ns', 'has-zero-row' if (~live).any() else 'all-live'))
+        add(f'agc {nc} {ns} {lagc} {_bits([1e-8])} {_bits(x)}', chk)
+
+    model = ctx.lean(lines)
+    for fn, ans in zip(checks, model):
+        fn(ans)
+
+
 def correspondence(ctx):
     _exact_part(ctx)
     _twin_part(ctx)
+    _growth_part(ctx)
     _oracle_part(ctx)
 
 
